@@ -602,3 +602,20 @@ func RLz4BodyDecompress(body []byte) ([]byte, error) {
 	}
 	return out, nil
 }
+
+// RCrc32Plain is the standard CRC-32 (IEEE) of data WITHOUT Cassandra's four initial bytes: one of the
+// "almost right" checksums a lenient comparison might accept.
+func RCrc32Plain(data []byte) uint32 {
+	crc := ^uint32(0)
+	for _, b := range data {
+		crc ^= uint32(b)
+		for k := 0; k < 8; k++ {
+			if crc&1 == 1 {
+				crc = crc>>1 ^ 0xEDB88320
+			} else {
+				crc >>= 1
+			}
+		}
+	}
+	return ^crc
+}
